@@ -15,7 +15,7 @@ Contracts only. Function bodies come from /repo at run time.
 from engine.unit import Fn, Raw, Type, Unit
 
 F = "crates/runtime/src/vm.rs"
-P = ("C07", "C06")
+P = ("C07", "C18", "C06")
 
 PRELUDE = r"""
 global size_of usize == 8;   // assumption: 64-bit target
@@ -33,6 +33,17 @@ pub type Result<T> = core::result::Result<T, Error>;
 #[verifier::external_body] pub struct InstructionReader { _p: u8 }
 #[verifier::external_body] pub struct Frame { _p: u8 }
 #[verifier::external_body] pub struct ExecutionState { _p: u8 }
+#[verifier::external_body] pub struct ValueKey { _p: u8 }
+pub uninterp spec fn key_of(v: KValue) -> Option<ValueKey>;
+impl ValueKey {
+    // `ValueKey::try_from(value)` (impl TryFrom<KValue> for ValueKey): only hashable values are keys
+    #[verifier::external_body]
+    pub fn try_from_value(v: KValue) -> (r: Result<ValueKey>) ensures r matches Ok(k) ==> key_of(v) == Some(k), r is Err ==> key_of(v) is None { unimplemented!() }
+}
+pub struct ConstantIndex(pub u32);
+// runtime_error!("'{name}' not found") (rule R5)
+#[verifier::external_body]
+pub fn runtime_error_not_found<T>(name: &str) -> (r: Result<T>) ensures r is Err { unimplemented!() }
 // std::path::PathBuf: the key of the module cache
 #[verifier::external_body] pub struct PathBuf { _p: u8 }
 impl Clone for PathBuf { #[verifier::external_body] fn clone(&self) -> (r: Self) ensures r == *self { unimplemented!() } }
@@ -50,7 +61,7 @@ impl KMap {
     #[verifier::external_body]
     pub fn get_meta_value(&self, key: &MetaKey) -> Option<KValue> { unimplemented!() }
 }
-pub enum KValue { Str(KString), Map(KMap), Other(u8) }
+pub enum KValue { Null, Str(KString), Map(KMap), Other(u8) }
 impl Clone for KValue { #[verifier::external_body] fn clone(&self) -> (r: Self) ensures r == *self { unimplemented!() } }
 impl From<KMap> for KValue { #[verifier::external_body] fn from(m: KMap) -> KValue { KValue::Map(m) } }
 impl KValue {
@@ -72,7 +83,10 @@ pub struct CompileResult { pub chunk: Ptr<Chunk>, pub path: PathBuf, pub loaded_
 pub struct KotoVmSettings { pub run_import_tests: bool }
 #[verifier::external_body] pub struct ModuleCache { _p: u8 }
 impl ModuleCache { pub uninterp spec fn view(&self) -> Map<PathBuf, Option<KMap>>; }
-pub struct VmContext { pub settings: KotoVmSettings, pub module_cache: ModuleCache }
+// `code_runs` (ghost): how many times code was executed through this runtime (run / run_tests / call_function)
+pub struct VmContext { pub settings: KotoVmSettings, pub module_cache: ModuleCache, pub code_runs: Ghost<nat> }
+// the path the module loader resolves a module name to (find_module, V-modloader): ASSUMED stable during one import
+pub uninterp spec fn resolved_path(name: KString) -> PathBuf;
 """
 
 VM_SPECS = r"""
@@ -80,6 +94,19 @@ VM_SPECS = r"""
     // the paths that are marked "being imported"
     spec fn placeholders(&self) -> Set<PathBuf> { self.cache().dom().filter(|p: PathBuf| self.cache()[p] is None) }
     // C07: what an import - finished or failed - leaves of its own bookkeeping: nothing
+    spec fn runs(&self) -> nat { self.context.v.code_runs@ }
+    // read at entry only
+    uninterp spec fn reg(&self, r: u8) -> KValue;
+    uninterp spec fn non_local_or_prelude(&self, name: KString) -> Option<KValue>;
+    uninterp spec fn loader_has_chunk(&self, p: PathBuf) -> bool;
+    // the module file an `import` of the value in register r has to load (None: the name is already
+    // bound as a non-local / in the prelude, or the value is a map)
+    spec fn module_to_load(&self, r: u8) -> Option<PathBuf> {
+        match self.reg(r) {
+            KValue::Str(n) => if self.non_local_or_prelude(n) is None { Some(resolved_path(n)) } else { None },
+            _ => None,
+        }
+    }
     spec fn clean(o: &KotoVm, f: &KotoVm) -> bool {
         &&& f.exports == o.exports
         &&& f.placeholders() =~= o.placeholders()
@@ -88,7 +115,7 @@ VM_SPECS = r"""
     // executing code: nested imports obey `clean`, nothing else writes a placeholder or swaps the
     // exports map; the entry of a module that is being imported is not touched (a recursive import of
     // it is an error) - ASSUMED for run / run_tests / call_function
-    spec fn code_ran(o: &KotoVm, f: &KotoVm) -> bool { Self::clean(o, f) }
+    spec fn code_ran(o: &KotoVm, f: &KotoVm) -> bool { Self::clean(o, f) && f.runs() > o.runs() }
 
     #[verifier::external_body]
     fn run(&mut self, chunk: Ptr<Chunk>) -> (r: Result<KValue>) ensures Self::code_ran(old(self), final(self)) { unimplemented!() }
@@ -97,23 +124,44 @@ VM_SPECS = r"""
     #[verifier::external_body]
     fn call_function(&mut self, function: KValue, args: &[KValue]) -> (r: Result<KValue>) ensures Self::code_ran(old(self), final(self)) { unimplemented!() }
 
+    // ---- exports and non-locals (C18)
+    uninterp spec fn exports_data(m: KMap) -> Map<ValueKey, KValue>;
+    // `self.exports.data_mut().insert(k, v)` (rule R5): writes THE map object that `self.exports` points to
+    #[verifier::external_body]
+    fn exports_insert(&mut self, key: ValueKey, value: KValue)
+        ensures final(self).exports == old(self).exports, final(self).context == old(self).context,
+                final(self).written() == old(self).written().push((old(self).exports, key, value)) { unimplemented!() }
+    // ghost log of map writes made by this VM: (map, key, value)
+    uninterp spec fn written(&self) -> Seq<(KMap, ValueKey, KValue)>;
+    // `self.get_constant_str(i)` (constant pool)
+    #[verifier::external_body]
+    fn get_constant_str(&self, i: ConstantIndex) -> (r: &str) ensures r@ == self.constant(i) { unimplemented!() }
+    uninterp spec fn constant(&self, i: ConstantIndex) -> Seq<char>;
+    // `self.frame().non_local(name).or_else(|| self.context.prelude.get(name))` (rule R5)
+    #[verifier::external_body]
+    fn lookup_non_local_or_prelude_str(&self, name: &str) -> (r: Option<KValue>) ensures r == self.non_local_by_name(name@) { unimplemented!() }
+    uninterp spec fn non_local_by_name(&self, name: Seq<char>) -> Option<KValue>;
+
     // registers and frames: no part in this unit
     #[verifier::external_body]
-    fn clone_register(&self, register: u8) -> KValue { unimplemented!() }
+    fn clone_register(&self, register: u8) -> (r: KValue) ensures r == self.reg(register) { unimplemented!() }
     #[verifier::external_body]
     fn set_register(&mut self, register: u8, value: KValue)
-        ensures final(self).exports == old(self).exports, final(self).context == old(self).context { unimplemented!() }
+        ensures final(self).exports == old(self).exports, final(self).context == old(self).context,
+                final(self).reg(register) == value, final(self).written() == old(self).written() { unimplemented!() }
     // `self.frame_mut().non_locals.get_or_insert_default().add_wildcard_import(imported)` (rule R5)
     #[verifier::external_body]
     fn add_wildcard_import(&mut self, imported: KValue)
         ensures final(self).exports == old(self).exports, final(self).context == old(self).context { unimplemented!() }
     // `self.frame().non_local(&name).or_else(|| self.context.prelude.get(&name))` (rule R5)
     #[verifier::external_body]
-    fn lookup_non_local_or_prelude(&self, name: &KString) -> Option<KValue> { unimplemented!() }
+    fn lookup_non_local_or_prelude(&self, name: &KString) -> (r: Option<KValue>) ensures r == self.non_local_or_prelude(*name) { unimplemented!() }
     // `self.context.loader.borrow_mut().compile_module(&name, <path of the current chunk>)?` (rule R5)
     #[verifier::external_body]
     fn compile_module(&mut self, name: &KString) -> (r: Result<CompileResult>)
-        ensures *final(self) == *old(self) { unimplemented!() }
+        ensures *final(self) == *old(self),
+                r matches Ok(c) ==> c.path == resolved_path(*name) && c.loaded_from_cache == old(self).loader_has_chunk(c.path),
+    { unimplemented!() }
     // the host's module_imported_callback (rule R5): host code, assumed not to reach into the VM
     #[verifier::external_body]
     fn notify_module_imported(&mut self, path: &PathBuf) ensures *final(self) == *old(self) { unimplemented!() }
@@ -125,11 +173,13 @@ VM_SPECS = r"""
     #[verifier::external_body]
     fn cache_insert(&mut self, path: PathBuf, entry: Option<KMap>)
         ensures final(self).cache() == old(self).cache().insert(path, entry),
-                final(self).exports == old(self).exports, final(self).context.v.settings == old(self).context.v.settings { unimplemented!() }
+                final(self).exports == old(self).exports, final(self).context.v.settings == old(self).context.v.settings,
+                final(self).runs() == old(self).runs() { unimplemented!() }
     #[verifier::external_body]
     fn cache_remove(&mut self, path: &PathBuf)
         ensures final(self).cache() == old(self).cache().remove(*path),
-                final(self).exports == old(self).exports, final(self).context.v.settings == old(self).context.v.settings { unimplemented!() }
+                final(self).exports == old(self).exports, final(self).context.v.settings == old(self).context.v.settings,
+                final(self).runs() == old(self).runs() { unimplemented!() }
 """
 
 WS = r"\s*"
@@ -146,6 +196,26 @@ UNIT = Unit(
            spec=r"""
     ensures r is Ok, Self::clean(old(self), final(self)), final(self).context == old(self).context,
 """),
+        Fn(F, "impl KotoVm :: fn run_export_value", props=("C18",),
+           subst=[("ValueKey::try_from(self.clone_register(key_register))?", "ValueKey::try_from_value(self.clone_register(key_register))?", 1),
+                  ("self.exports.data_mut().insert(key, value);", "self.exports_insert(key, value);", 1)],
+           spec=r"""
+    ensures
+        // C18: `export k = v` writes exactly (k, v) into the exports map of the module that is running
+        r is Ok ==> (key_of(old(self).reg(key_register)) matches Some(k)
+                    && final(self).written() == old(self).written().push((old(self).exports, k, old(self).reg(value_register)))),   // @export_writes_the_running_modules_map
+        r is Err ==> key_of(old(self).reg(key_register)) is None && final(self).written() == old(self).written(),                   // @unhashable_key_is_an_error
+        final(self).exports == old(self).exports,
+"""),
+        Fn(F, "impl KotoVm :: fn run_load_non_local", props=("C18",),
+           subst=[(r"self\s*\.frame\(\)\s*\.non_local\(name\)\s*\.or_else\(\|\| self\.context\.prelude\.get\(name\)\)", "self.lookup_non_local_or_prelude_str(name)", 1, "re"),
+                  ("""runtime_error!("'{name}' not found")""", "runtime_error_not_found(name)", None)],
+           spec=r"""
+    ensures
+        // C18: an exported / imported / prelude name is visible to later code; an unknown name is an error
+        old(self).non_local_by_name(old(self).constant(constant_index)) matches Some(v) ==> r is Ok && final(self).reg(register) == v,   // @non_local_is_loaded
+        old(self).non_local_by_name(old(self).constant(constant_index)) is None ==> r is Err && *final(self) == *old(self),              // @unknown_name_is_an_error
+"""),
         Fn(F, "impl KotoVm :: fn run_import", props=P,
            final_guards=1,
            subst=[
@@ -153,16 +223,16 @@ UNIT = Unit(
                ("let source_path = self.reader.chunk.path.clone();", "", 1),
                (r"self\.context\.loader\.borrow_mut\(\)\.compile_module\(\s*&import_name,\s*source_path\s*\.as_ref\(\)\s*\.map\(\|path_string\| Path::new\(path_string\.as_str\(\)\)\),\s*\)\?", "self.compile_module(&import_name)?", 1, "re"),
                (CACHE + r"\.borrow\(\)\s*\.get\(&compile_result\.path\)\s*\.cloned\(\)", "self.cache_get(&compile_result.path)", 1, "re"),
-               (CACHE + r"\.borrow_mut\(\)\s*\.insert\(", "self.cache_insert(", 2, "re"),
-               (CACHE + r"\.borrow_mut\(\)\s*\.remove\(", "self.cache_remove(", 1, "re"),
-               ("""runtime_error!("recursive import of module '{import_name}'")""", "runtime_error_recursive_import(&import_name)", 1),
+               (CACHE + r"\.borrow_mut\(\)\s*\.insert\(", "self.cache_insert(", None, "re"),
+               (CACHE + r"\.borrow_mut\(\)\s*\.remove\(", "self.cache_remove(", None, "re"),
+               ("""runtime_error!("recursive import of module '{import_name}'")""", "runtime_error_recursive_import(&import_name)", None),
                (r"if let Some\(callback\) = &self\.context\.settings\.module_imported_callback \{\s*callback\(&compile_result\.path\);\s*\}", "self.notify_module_imported(&compile_result.path);", 1, "re"),
            ],
            before=[
                ("let importer_exports = self.exports.clone();", """let ghost path = compile_result.path;
 proof {
     // the path was not marked before (that is the recursive-import error above) and is marked now
-    assert(!old(self).placeholders().contains(path));
+    assert(!old(self).placeholders().contains(path));   // @import_cycle_is_an_error
     assert(self.placeholders() =~= old(self).placeholders().insert(path));
 }"""),
                ("if import_result.is_ok() {", """let ghost loaded = *self;
@@ -205,11 +275,26 @@ proof {
         // running higher up removed)
         final(self).placeholders() =~= old(self).placeholders(),                                          // @no_placeholder_left_behind
         final(self).context.v.settings == old(self).context.v.settings,
+        // C18: an import cycle is reported as an error (and runs nothing)
+        old(self).module_to_load(import_register) matches Some(path) ==>
+            (old(self).placeholders().contains(path) ==> r is Err && final(self).cache() == old(self).cache() && final(self).runs() == old(self).runs()),   // @import_cycle_is_an_error
+        // C18: a module that was imported before is not run again, however many modules import it
+        old(self).module_to_load(import_register) matches Some(path) ==>
+            (old(self).cache().contains_key(path) && old(self).cache()[path] is Some && old(self).loader_has_chunk(path)
+                ==> final(self).runs() == old(self).runs() && final(self).cache() == old(self).cache()),                                               // @cached_module_is_not_run_again
+        // C18: an imported module is in the cache afterwards
+        old(self).module_to_load(import_register) matches Some(path) ==>
+            (r is Ok ==> final(self).cache().contains_key(path) && final(self).cache()[path] is Some),                                                 // @imported_module_is_cached
+        // C18: a module whose import failed leaves nothing behind and can be imported again
+        old(self).module_to_load(import_register) matches Some(path) ==>
+            (r is Err ==> final(self).cache() == old(self).cache() || !final(self).cache().contains_key(path)),                                        // @failed_import_leaves_no_entry
 """),
     ],
     epilogue=r"""
 // ---- vacuity guard: MUST FAIL
 proof fn canary_import(vm: KotoVm, p: PathBuf) requires vm.placeholders().contains(p) ensures false {}
+proof fn canary_import_cached(vm: KotoVm, r: u8, p: PathBuf)
+    requires vm.module_to_load(r) == Some(p), vm.cache().contains_key(p), vm.cache()[p] is Some, vm.loader_has_chunk(p) ensures false {}
 """,
-    canaries=("canary_import",),
+    canaries=("canary_import", "canary_import_cached"),
 )
